@@ -344,6 +344,7 @@ def run_c16(pid, tier, t0):
     ntr = 0
     samples = []
     metrics_recs = []
+    rotations = []
     for hist, splice, n in configs:
         rnd = random.Random(seed * 100 + hist)
         tag = "h%d_%s" % (hist, "splice" if splice else "buffered")
@@ -358,7 +359,32 @@ def run_c16(pid, tier, t0):
                              fake={"fakehttp": ("http", fakes["fakehttp"].port), "fakesocks": ("socks", fakes["fakesocks"].port)}).start()
         topo.fakes = fakes
         api_results = []     # (handler, event) in call order
+        # log rotation at any time: while the burst runs the log file is moved away and POST /logrotate is called again and again
+        rot = {"stop": False, "files": [], "calls": 0}
+
+        def rotator():
+            k = 0
+            while not rot["stop"]:
+                time.sleep(0.15 + 0.1 * (k % 3))
+                dst = "%s.%d" % (alog, k)
+                try:
+                    os.rename(alog, dst)
+                except OSError:
+                    continue
+                rot["files"].append(dst)
+                k += 1
+                try:
+                    topo.p1.api(topo.api1, "/logrotate", method="POST", body="")
+                    rot["calls"] += 1
+                except OSError:
+                    pass
+        for old in [f for f in os.listdir(wd) if f.startswith(os.path.basename(alog) + ".")]:
+            os.remove(os.path.join(wd, old))
+        rth = threading.Thread(target=rotator, daemon=True)
+        rth.start()
         exps, keep = c16_burst(topo, origins, n, rnd)
+        rot["stop"] = True
+        rth.join(5)
         time.sleep(1.6)      # at least one gc tick: everything that ended is collected
         st, body = topo.p1.api(topo.api1, "/live")
         api_results.append(("get_alive", {"ev": "api_live", "ids": sorted(e["id"] for e in json.loads(body))}))
@@ -383,10 +409,15 @@ def run_c16(pid, tier, t0):
         if panic or not alive:
             v.report("life/proxy-died", str(panic)[:300], {"tag": tag})
         entries = []
-        if os.path.exists(alog):
-            for ln in open(alog, "rb").read().decode("utf-8", "replace").splitlines():
-                if ln.strip():
-                    entries.append(json.loads(ln))
+        for f in rot["files"] + [alog]:
+            if os.path.exists(f):
+                for ln in open(f, "rb").read().decode("utf-8", "replace").splitlines():
+                    if ln.strip():
+                        try:
+                            entries.append(json.loads(ln))
+                        except ValueError:
+                            v.report("life/access-log/torn-line", {"file": os.path.basename(f), "line": ln[:200]}, {"tag": tag})
+        rotations.append(rot["calls"])
         by_id = {e["id"]: e for e in entries}
         trace = topo.p1.trace()
         # attach API results to the api_end events of their handlers, in order
@@ -455,7 +486,7 @@ def run_c16(pid, tier, t0):
                 "upstream proxy, denied, no rule, refused, bad password, garbage handshake, aborted mid-tunnel, unsupported feature) from 8 "
                 "threads against real processes with history sizes incl. 0 and smaller than the burst; lifecycle events + /live and /history "
                 "snapshots at quiescent points + access log lines + per-connection record checks are one TraceLife trace per configuration",
-        "configurations": [{"history": h, "splice": s, "connections": n} for h, s, n in configs], "exhaustive": False, "checker_cmd": mcs[0].cmd,
+        "configurations": [{"history": h, "splice": s, "connections": n} for h, s, n in configs], "log_rotations_during_bursts": rotations, "exhaustive": False, "checker_cmd": mcs[0].cmd,
     }, ["API snapshots are taken when the driver has no connection in transition (quiescent), so they must equal the model's sets exactly",
         "UDP sessions are covered by C10's runs"])
     return v.finish(ev, t0)
